@@ -1241,7 +1241,7 @@ Theorem p256_encode_not_injective :
   exists P Q, P <> Q /\ w_on_curve p256_params P = true /\ w_on_curve p256_params Q = true /\
               sec1_enc_c p256_codec P = sec1_enc_c p256_codec Q.
 Proof.
-  exists (Some (0, p256_sqrt_b)), None. split; [discriminate|]. repeat split; vm_compute; reflexivity.
+  exists (Some (0, p256_sqrt_b)), None. apply conj; [discriminate|]. repeat apply conj; vm_compute; reflexivity.
 Qed.
 
 (* ---- non-vacuity: a toy curve over F_11 meets every hypothesis ---------------------------------- *)
@@ -1258,3 +1258,16 @@ Definition toy_codec : wcodec :=
 
 Lemma toy_codec_ok : wcodec_ok toy_codec.
 Proof. codec_ok prime_11. Qed.
+
+Lemma c13_nonvacuous :
+  wcodec_ok toy_codec /\
+  euler (wc_p toy_codec) (wp_b (wc toy_codec)) = wc_p toy_codec - 1 /\
+  w_on_curve (wc toy_codec) (Some (5, 0)) = true /\
+  sec1_dec_c toy_codec (sec1_enc_c toy_codec (Some (4, 4))) = Some (Some (4, 4)) /\
+  sec1_dec_c k256_codec (sec1_enc_c k256_codec (w_gen k256_params)) = Some (w_gen k256_params) /\
+  pasta_dec_c pallas_codec (pasta_enc_c pallas_codec (w_gen pallas_params)) = Some (w_gen pallas_params) /\
+  ed_dec_c ed25519_codec (ed_enc_c ed25519_codec (e_gen ed25519_params)) = Some (e_gen ed25519_params) /\
+  e_on_curve ed25519_params (e_gen ed25519_params) = true.
+Proof.
+  apply conj; [exact toy_codec_ok|]. repeat apply conj; vm_compute; reflexivity.
+Qed.
